@@ -215,7 +215,7 @@ def setContains (cfg : Cfg) (s x : Val) : Bool :=
   | _ => false
 
 /-- temporary keys built by the convenience helpers (cache 0, no arena) -/
-def tempKeyword (ns : Option Bytes) (name : Bytes) : Val := .kw ⟨0, 0, 0⟩ ns name
-def tempString (text : Bytes) : Val := .str ⟨0, 0, 0⟩ text false
+def tempKeyword (ns : Option Bytes) (name : Bytes) : Val := .kw (mkHdr (0) (0)) ns name
+def tempString (text : Bytes) : Val := .str (mkHdr (0) (0)) text false
 
 end Edn.Model
